@@ -1,4 +1,5 @@
 import Proofs.C20
+import Proofs.Facts.C20
 #print axioms C20.reachable_wf
 #print axioms C20.single_fault_atomic
 #print axioms C20.fault_is_reported
@@ -15,3 +16,7 @@ import Proofs.C20
 #print axioms C20.id_never_reused
 #print axioms C20.ids_monotone_after_reindex
 #print axioms C20.ids_unique_all_interleavings
+#print axioms C20.Facts.upload_id_format_agrees
+#print axioms C20.Facts.flushG_eq
+#print axioms C20.Facts.flush_threshold_agrees
+#print axioms C20.Facts.db_constants_pinned
